@@ -81,6 +81,9 @@ pub enum Op {
     Snapshot,
     /// continue on the clone kept by the last Snapshot (if any)
     Restore,
+    /// serialise the Tds to JSON, load it again and continue on `from_tds_with_topology_guarantee(loaded)`
+    /// (the documented path for custom kernels / data); policies other than the guarantee restart at their defaults
+    SerdeSwap,
 }
 
 pub fn validation_policy(k: u8) -> ValidationPolicy {
@@ -157,6 +160,7 @@ pub enum Outcome {
     Set,
     /// the triangulation was replaced by an earlier snapshot
     Restored,
+    Reloaded,
     /// a policy setter panicked (debug_assert!(false) in the debug-assertion profile): a C19 matter
     SetPanicked { site: String, message: String },
     Noop,
@@ -176,6 +180,7 @@ impl Outcome {
             Outcome::RepairErr { .. } => "RepairErr",
             Outcome::Set => "Set",
             Outcome::Restored => "Restored",
+            Outcome::Reloaded => "Reloaded",
             Outcome::SetPanicked { .. } => "SetPanicked",
             Outcome::Noop => "Noop",
         }
@@ -670,6 +675,20 @@ impl<K: Kern<D>, const D: usize> World<K, D> {
                         self.dt = d;
                         Outcome::Restored
                     }
+                    None => Outcome::Noop,
+                }
+            }
+            Op::SerdeSwap => {
+                r.desc = "serialise the Tds, load it, continue on from_tds(loaded)".into();
+                let loaded = serde_json::to_string(self.dt.tds()).ok().and_then(|t| serde_json::from_str::<delaunay::core::triangulation_data_structure::Tds<f64, i32, (), D>>(&t).ok());
+                match loaded {
+                    Some(tds) => {
+                        self.remember(before);
+                        let g = self.dt.topology_guarantee();
+                        self.dt = delaunay::core::delaunay_triangulation::DelaunayTriangulation::from_tds_with_topology_guarantee(tds, K::make(), g);
+                        Outcome::Reloaded
+                    }
+                    // a state the deserialiser refuses (C13 judges that) is simply kept
                     None => Outcome::Noop,
                 }
             }
